@@ -114,6 +114,9 @@ type hface struct {
 	run    struct{ base, next, count uint64 } // fragment run arriving in index order
 	inRun  bool
 	ranges [][2]uint64 // Sequence ranges of the last fragmented packets
+	// Sequence -> FragIndex of the last 256 fragment frames received
+	recentSeq   map[uint64]uint64
+	recentOrder []uint64
 
 	// reader goroutine
 	done     chan struct{}
@@ -793,12 +796,24 @@ func runOnce(c Case, noProgress time.Duration) (rr runResult) {
 		if cnt > 400 {
 			return vf(3, "face %d received a fragment with FragCount %d; a peer link service accepts at most 400", h.idx, cnt)
 		}
-		// fragments that arrive in index order (the forwarder's face sends one packet after the other, and a
-		// local socket keeps the order): Sequence must advance with FragIndex, or the peer cannot find the base
+		// every fragment frame carries a Sequence of its own (the peer finds a packet's fragments by
+		// Sequence-FragIndex); in which order the frames of a packet are emitted is free (legitimate
+		// variation C10-4 emits them last first), so this is checked on the values, not on arrival order
+		if prev, seen := h.recentSeq[seq]; seen && prev != idx {
+			return vf(3, "face %d: fragment %d of %d carries Sequence %d, which fragment %d of a packet sent just before carried too: the peer computes the base Sequence as Sequence-FragIndex and cannot reassemble", h.idx, idx, cnt, seq, prev)
+		}
+		if h.recentSeq == nil {
+			h.recentSeq = map[uint64]uint64{}
+		}
+		h.recentSeq[seq] = idx
+		h.recentOrder = append(h.recentOrder, seq)
+		if len(h.recentOrder) > 256 {
+			delete(h.recentSeq, h.recentOrder[0])
+			h.recentOrder = h.recentOrder[1:]
+		}
 		if idx == 0 {
-			h.inRun, h.run.base, h.run.next, h.run.count = true, seq, 1, cnt
 			for _, r := range h.ranges {
-				if seq <= r[1] && r[0] <= seq+cnt-1 {
+				if seq <= r[1] && r[0] <= seq+cnt-1 && r[0] != seq {
 					return vf(3, "face %d: the fragments of a packet use Sequence %d..%d, overlapping those of a packet sent just before (%d..%d): interleaved at the peer they would be mixed up", h.idx, seq, seq+cnt-1, r[0], r[1])
 				}
 			}
@@ -806,13 +821,6 @@ func runOnce(c Case, noProgress time.Duration) (rr runResult) {
 			if len(h.ranges) > 2 {
 				h.ranges = h.ranges[1:]
 			}
-		} else if h.inRun && idx == h.run.next && cnt == h.run.count {
-			if seq != h.run.base+idx {
-				return vf(3, "face %d: fragment %d of %d carries Sequence %d, fragment 0 carried %d: the peer computes the base Sequence as Sequence-FragIndex and cannot reassemble", h.idx, idx, cnt, seq, h.run.base)
-			}
-			h.run.next++
-		} else {
-			h.inRun = false
 		}
 		base := seq - idx
 		p := h.parts[base]
